@@ -9,10 +9,10 @@ package main
 import (
 	"encoding/json"
 	"fmt"
-	"strings"
 	"os"
 	"sort"
 	"strconv"
+	"strings"
 
 	"verif/internal/mon"
 	"verif/internal/props"
